@@ -561,6 +561,27 @@ def host_rules(ctx, prefix):
     curly = d.arm("CurlyBracketBlock")
     ok = curly is not None and any(x.get("k") == "mcall" and x["m"] == "wrap_at_rule_output" for x in sir.walk(curly.body)) and any(x.get("k") == "mcall" and x["m"] == "get_output_segment" for x in sir.walk(curly.body))
     obs.append(ob("%s.pair/at-rule-capture" % prefix, ok, ctx.where(d.fn), "the at-rule prelude text is captured from the output and kept on the stack while its block is parsed: %s" % ok))
+    obs += capture_offsets_rule(ctx, prefix)
+    return obs
+
+
+def capture_offsets_rule(ctx, prefix):
+    """the offsets used to slice the prelude text out of the output are byte lengths of that same string"""
+    ob = ctx.ob
+    sc = ctx.sc
+    obs = []
+    cu = [f for f in sc.fns if f.name == "cur_utf8_len" and f.base == "StyleSheetOutput" and f.body]
+    gs = [f for f in sc.fns if f.name == "get_output_segment" and f.base == "StyleSheetOutput" and f.body]
+    ok1 = len(cu) == 1 and sir.expr_str(cu[0].body["stmts"][-1]["e"]).replace(" ", "") == "self.s.len()"
+    ok2 = len(gs) == 1 and sir.expr_str(gs[0].body["stmts"][-1]["e"]).replace(" ", "") in ("&self.s[range]", "&self.s[range.start..range.end]")
+    obs.append(ob("%s.pair/capture-offsets" % prefix, ok1 and ok2, "glass-easel-stylesheet-compiler/src/output.rs",
+                  "cur_utf8_len() is the byte length of the output string (%s) and get_output_segment() slices that string by bytes (%s)" % (ok1, ok2),
+                  witness=None if ok1 and ok2 else "any non-ASCII output before an at-rule shifts the replayed wrapper or panics on a char boundary"))
+    # transformer-level wrappers delegate to the current output
+    for nm, inner in (("cur_output_utf8_len", "cur_utf8_len"), ("get_output_segment", "get_output_segment")):
+        g = [f for f in sc.fns if f.name == nm and f.base == "StyleSheetTransformer" and f.body]
+        okd = len(g) == 1 and any(n.get("k") == "mcall" and n["m"] == inner and "current_output()" in sir.expr_str(n["recv"]) for n in sir.walk(g[0].body))
+        obs.append(ob("%s.pair/capture-delegates/%s" % (prefix, nm), okd, "lib.rs", "%s() reads the stream currently written to: %s" % (nm, okd)))
     return obs
 
 
